@@ -773,8 +773,9 @@ class Client(ClientLike):
                 raise ConnectionLost
 
             header.recv_time = time.perf_counter()
-        except ConnectionError:
-            raise ConnectionLost
+        except ConnectionError as e:
+            self._connected = False
+            raise ConnectionLost from e
 
         # Read Data Section
 
@@ -812,8 +813,9 @@ class Client(ClientLike):
                 if nbytes != type_size:
                     self._connected = False
                     raise ConnectionLost
-            except ConnectionError:
-                raise ConnectionLost
+            except ConnectionError as e:
+                self._connected = False
+                raise ConnectionLost from e
 
         return Message(header, data)
 
